@@ -229,7 +229,8 @@ fn is_single_ident(e: &syn::Expr) -> bool {
 enum Verdict {
     /// syn cannot parse the list: outside the domain
     NotRust,
-    Ok,
+    /// agreement; number of arguments according to the truth parser
+    Ok(usize),
     Bad { what: String, expected: String, observed: String },
 }
 
@@ -283,7 +284,7 @@ fn check_list(text: &str) -> Verdict {
             };
         }
     }
-    Verdict::Ok
+    Verdict::Ok(t_elems.len())
 }
 
 /// Through the whole attribute: `#[display("{N}", e1, .., en, _0)] struct S<T>(T)` must infer `T: Display` iff the
@@ -422,7 +423,7 @@ fn sig_for(what: &str, text: &str, _expected: &str, _observed: &str) -> Option<S
             syn::visit_mut::visit_expr_binary_mut(self, b);
         }
     }
-    let agrees = |t: &str| matches!(check_list(t), Verdict::Ok);
+    let agrees = |t: &str| matches!(check_list(t), Verdict::Ok(_));
     let base = rerender(&mut |_| {});
     let names = ["c16-cast-to-generic-type-split", "c16-binary-or-taken-for-closure", "c16-less-than-taken-for-qualified-path"];
     // smallest set of rewrites that makes the disagreement disappear
@@ -476,8 +477,9 @@ pub fn run(ctx: &Ctx) -> Report {
             let text = c.text();
             let v = check_list(&text);
             let mut extra = None;
-            if let Verdict::Ok = v {
-                extra = through_attribute(&text, c.elems.len(), c.elems.iter().any(|(a, _)| a.is_some()));
+            if let Verdict::Ok(n_truth) = v {
+                // (the generator's own element count may differ from the grammar's: `a.. | |x, y| z, w` reads differently)
+                extra = through_attribute(&text, n_truth, c.elems.iter().any(|(a, _)| a.is_some()));
             }
             (v, extra, c.elems.len())
         })
@@ -490,7 +492,7 @@ pub fn run(ctx: &Ctx) -> Report {
         rep.evidence.eval(1);
         match v {
             Verdict::NotRust => rep.evidence.label("not_accepted_by_syn"),
-            Verdict::Ok => rep.evidence.label("agree"),
+            Verdict::Ok(_) => rep.evidence.label("agree"),
             Verdict::Bad { what, expected, observed } => {
                 rep.evidence.label("disagree");
                 bad.push((what.clone(), text.clone(), expected.clone(), observed.clone()));
@@ -559,7 +561,7 @@ pub fn run(ctx: &Ctx) -> Report {
         if sample.len() >= sample_n {
             break;
         }
-        if c.elems.iter().all(|(a, _)| a.is_none()) && !c.elems.is_empty() && matches!(results[i].0, Verdict::Ok | Verdict::Bad { .. }) {
+        if c.elems.iter().all(|(a, _)| a.is_none()) && !c.elems.is_empty() && matches!(results[i].0, Verdict::Ok(_) | Verdict::Bad { .. }) {
             sample.push(c.text());
         }
     }
@@ -676,7 +678,7 @@ pub fn check_text(text: &str) -> Option<(String, String, String, Option<String>)
             let sig = sig_for(&what, text, &expected, &observed);
             Some((what, expected, observed, sig))
         }
-        Verdict::Ok => {
+        Verdict::Ok(_) => {
             let ts = text.parse::<TokenStream>().ok()?;
             let t = Punctuated::<TruthArg, Token![,]>::parse_terminated.parse2(ts).ok()?;
             // the attribute-level check re-parses user tokens through format_args!-like positions: only lists that
@@ -706,7 +708,7 @@ pub fn replay(ctx: &Ctx, case: &Value) -> Report {
         Verdict::Bad { what, expected, observed } => {
             rep.violations.push(Violation { sig: resolve_sig(ctx, sig_for(&what, text, &expected, &observed)), summary: format!("{what}: `{text}`"), case: case.clone(), expected, observed })
         }
-        Verdict::Ok => {
+        Verdict::Ok(_) => {
             if let Ok(ts) = text.parse::<TokenStream>() {
                 if let Ok(t) = Punctuated::<TruthArg, Token![,]>::parse_terminated.parse2(ts) {
                     if let Some((what, e, o)) = through_attribute(text, t.len(), t.iter().any(|a| a.alias.is_some())) {
